@@ -18,21 +18,36 @@ def definition_history(case):
     k, u, t, N = cfg["kind"], cfg["u"], cfg["t"], cfg["N"]
     g = cfg["p"].get("g", F(0))
     exp = []
-    T = F(1)
+    # long / awkward-magnitude stream: sums and null means stay exact, the running product is carried as a float
+    # (an exact product of thousands of factors is too slow), and a total within 1e-12 (relative) of the null total
+    # leaves the remaining entries unpinned, because there the implementation's rounding decides the branch
+    lng = bool(cfg.get("long"))
+    T = 1.0 if lng else F(1)
+    fl = (lambda v: float(v)) if lng else (lambda v: v)
     S = F(0)
     dead = False
+
+    def near(total, null_total):
+        return lng and abs(total - null_total) <= F(1, 10 ** 12) * max(abs(total), abs(null_total))
     for j, x in enumerate(xs, start=1):
         if k in ("km", "kw"):
             if k == "km":
                 if x + g == 0:
                     dead = True      # T = 0 from here on: p = 1
                 else:
-                    T *= (x + g) / (t + g)
+                    T *= fl((x + g) / (t + g))
             else:
-                T *= (1 - g) * x / t + g
-            exp.append(1.0 if dead or T == 0 else min(1.0, float(1 / T)))
+                T *= fl((1 - g) * x / t + g)
+            if lng and (T == 0 or math.isinf(T) or math.isnan(T)) and not dead:
+                exp.append(None)     # under/overflow of the float product: not pinned
+            else:
+                exp.append(1.0 if dead or T == 0 else min(1.0, float(1 / T)))
             continue
         if k == "kk":
+            if near(S, N * (t + g)) or (lng and dead is None):
+                dead = None          # unpinned from here on
+                exp.append(None); S += x + g
+                continue
             m = (N * (t + g) - S) / (N - j + 1)
             xg = x + g
             if m < 0 or (m == 0 and xg > 0):
@@ -41,9 +56,16 @@ def definition_history(case):
                 exp.append(None)
             else:
                 if not (m == 0 and xg == 0):
-                    T *= xg / m
-                exp.append(1.0 if T == 0 else min(1.0, float(1 / T)))
+                    T *= fl(xg / m)
+                if lng and (T == 0 or math.isinf(T) or math.isnan(T)):
+                    exp.append(None)
+                else:
+                    exp.append(1.0 if T == 0 else min(1.0, float(1 / T)))
             S += xg
+            continue
+        if dead is None or (N is not None and (near(S, N * t) or near(S + x, N * t))):
+            dead = None              # rounding decides which side of the null total we are on: unpinned from here on
+            exp.append(None); S += x
             continue
         m = (N * t - S) / (N - j + 1) if N is not None else t
         S += x
@@ -65,12 +87,24 @@ def definition_history(case):
             else:
                 eta = C.frac(o["aux"][j - 1])
             eta = min(u, max(eta, m))
-            T *= (x * eta / m + (u - x) * (u - eta) / (u - m)) / u
+            if lng:
+                xf, ef, mf, uf = float(x), float(eta), float(m), float(u)
+                if mf == 0.0 or mf == uf:
+                    dead = None
+                    exp.append(None); continue
+                fac = (xf * ef / mf + (uf - xf) * (uf - ef) / (uf - mf)) / uf
+            else:
+                fac = (x * eta / m + (u - x) * (u - eta) / (u - m)) / u
         else:
             # the fixed bet is the configured constant; aGRAPA's bets are taken from the implementation (C13 bounds them)
             lam = cfg["p"]["lam"] if k == "bet_fixed" else C.frac(o["aux"][j - 1])
-            T *= 1 + lam * (x - m)
-        if inband or abs(T) < 1e-12:
+            fac = fl(1 + lam * (x - m))
+        T *= fac
+        if lng and (abs(fac) < 1e-7 or abs(T) < 1e-12):
+            dead = None      # a factor formed by cancellation (1 - c with c -> 1, u - eta with eta -> u): its rounding error
+            exp.append(None)  # never leaves the product
+            continue
+        if inband or abs(T) < 1e-12 or (lng and (math.isinf(T) or math.isnan(T))):
             exp.append(None)
         else:
             exp.append(min(1.0, float(1 / T)) if T > 0 else None)
@@ -165,6 +199,13 @@ def run(ctx, res):
         for what, obs in oracle_defs(c):
             res.oracle_violations.append({"what": f"{c['cfg']['kind']}: {what}", "input": nnm.case_json(c), "observed": obs,
                                           "signature": f"C12:{c['cfg']['kind']}:{what}"})
+    lg = nnm.long_cases(ctx.rng, ctx.n(150, 1500))     # long samples / awkward magnitudes: definition oracle only
+    for c in lg:
+        res.oracle_runs += 1
+        res.evaluations += 1
+        for what, obs in oracle_defs(c):
+            res.oracle_violations.append({"what": f"{c['cfg']['kind']}: {what}", "input": nnm.case_json(c), "observed": obs,
+                                          "signature": f"C12:{c['cfg']['kind']}:{what}"})
     bad, runs = oracle_alpha_betting(ctx.rng, ctx.n(300, 4000))
     res.oracle_runs += runs
     res.evaluations += runs
@@ -172,7 +213,8 @@ def run(ctx, res):
         res.oracle_violations.append({"what": what, "input": obs, "signature": f"C12:{what}"})
     res.rule = ("correspondence as C11 plus the two conversion functions on a grid incl. mu = 0 and mu = u; oracle: every reported history "
                 "re-derived from the published product in exact rationals (using the implementation's own eta_j / lambda_j), and alpha_mart run "
-                "with eta_j = mu_j(1+lam_j(u-mu_j)) against betting_mart; non-trivial = non-constant sample")
+                "with eta_j = mu_j(1+lam_j(u-mu_j)) against betting_mart; the definition oracle also runs on long samples (65..3000 draws, totals "
+                "passing N t by 1e-9..1e-5 relative on the last draw, integer-typed u, units of 1e-9..1e6) with exact sums and a float product; non-trivial = non-constant sample")
     res.samples = [nnm.case_json(c) for c in cases[:3]]
-    res.stats = nnm.branch_stats(cases)
+    res.stats = dict(nnm.branch_stats(cases), **nnm.long_stats(lg))
     res.assumptions = ["np.sqrt modelled by an abstract function in theorems; Z.sqrt to 2^-60 in runs"]
